@@ -461,7 +461,7 @@ pub fn run(ctx: &mut Ctx) {
     }
     let mut rng = ctx.rng(0xC11);
     let gen = Gen { names: &names, max_depth: 6, max_arity: 4, placeholders: true, set_bias: false };
-    let n = ctx.share(400_000, 8_000_000);
+    let n = ctx.share(1_200_000, 12_000_000);
     let lg = {
         let mut l = LexGen::new(Fmt::Ascii, false);
         l.names = names.clone();
